@@ -1499,7 +1499,14 @@ pub fn worker(cfg: &WorkerCfg, emit: &mut dyn FnMut(Violation)) -> Stats {
                 if let Some(text) = sc.files.get(&e.1) {
                     let written = incmodel::basename(&e.1).to_string();
                     let dest = format!("{}/{}", sc.cwd, written);
-                    if r.chance(1, 2) || sc.files.contains_key(&dest) || e.2 == "w" || e.2 == "a" {
+                    if r.chance(1, 4) && !sc.symlinks.contains_key(&e.1) && !sc.devices.contains(&e.1) {
+                        // the file is not there for the first build (which fails naming it) and
+                        // is created before the second (a memory of what was missing serves a
+                        // stale "not found")
+                        f.missing = Some(e.1.clone());
+                        f.then_write.insert(e.1.clone(), text.clone());
+                        cx.stats.probe("second_build_after_a_missing_include_was_created", true);
+                    } else if r.chance(1, 2) || sc.files.contains_key(&dest) || e.2 == "w" || e.2 == "a" {
                         f.then_write.insert(e.1.clone(), format!("    ldi r20, {}\n{}", 10 + r.below(200), text));
                         cx.stats.probe("second_build_after_an_include_was_edited", true);
                     } else if let Some(name) = sc.files.values().flat_map(|t| t.lines()).filter_map(parse_include).find(|n| basename(n) == written) {
